@@ -158,8 +158,9 @@ theorem composite_monotone (u : Ups) (hwf : u.wf) (hne : u ≠ []) (sender : Str
 
 /-- every `ProcessEventBatchRequest` tells the handler the composite watermark of the registry of the **current
 deployment** as of the watermark messages received since that deployment (including the one being handled): with
-`composite_eq_min`, the minimum over the upstream runners. Holds for every history of keyed events, watermark messages
-and redeployments (`HandleDeploy` again on the same operator: every runner back to "not reported"), every batch size and
+`composite_eq_min`, the minimum over the upstream runners. Holds for every history of keyed events, watermark messages,
+source completions (a completed runner stays in the minimum with its latest report: `epochOf` keeps its messages) and
+redeployments (`HandleDeploy` again on the same operator: every runner back to "not reported"), every batch size and
 every timer store. Before the first watermark message of a deployment the field is `time.Time{}` (`reportAll` of no
 messages), which is below the epoch — never a value of an earlier deployment. -/
 theorem handler_sees_composite (store : Store) (ids : List String) (maxBatch : Nat) (pre : List OpEv) (e : OpEv) :
@@ -208,6 +209,10 @@ example : ((Op.runState ⟨Registry.new (Store.new [] 1 0 1 64) ["a"], [], 1⟩
       [.wmark "a" 100, .redeploy (Store.new [] 1 0 1 64) ["a"]]).step (.keyed [0x6b] [])).2.map (·.told) = [zeroTime] ∧
     ((Op.runState ⟨Registry.new (Store.new [] 1 0 1 64) ["a"], [], 1⟩
       [.wmark "a" 100]).step (.keyed [0x6b] [])).2.map (·.told) = [100] := by decide
+
+/-- runner `a` completes at watermark 5 while `b` is at 50: the next report of `b` leaves the composite at 5 -/
+example : ((Op.runState ⟨Registry.new (Store.new [] 1 0 1 64) ["a", "b"], [], 1⟩
+      [.wmark "a" 5, .wmark "b" 50, .complete "a", .wmark "b" 60]).step (.keyed [0x6b] [])).2.map (·.told) = [5] := by decide
 
 /-- a report above the previous one cannot lower the composite -/
 example : (Ups.init ["a", "b"]).composite ≤ ((Ups.init ["a", "b"]).report "a" 10).2 := by decide
